@@ -67,6 +67,15 @@ impl RefJournal {
         (off, b.len() as u64, full)
     }
 
+    /// The rotation that the last `append` predicted did not happen (creating the next chunk file failed):
+    /// the record stays the last one of its, now over-full, file; the next record re-checks the limits.
+    pub fn undo_last_rotation(&mut self) {
+        if self.files.len() >= 2 && self.files.last().map(|f| f.nrec == 1).unwrap_or(false) {
+            self.files.pop();
+            self.rotations -= 1;
+        }
+    }
+
     pub fn file(&self, id: u64) -> Option<&RefFile> {
         self.files.iter().find(|f| f.id == id)
     }
